@@ -7,12 +7,24 @@ import numpy
 from pyshim import core
 from pyshim.nodes import *  # noqa
 from pyshim.nodes import (
-    _Index, _Identities, _as_index, _check_identities, _span_bytes, _safe_dtname, FILENAME_SUFFIX,
+    span_view, _Index, _Identities, _as_index, _check_identities, _span_bytes, _safe_dtname, FILENAME_SUFFIX,
 )
 from pyshim.core import (
     hx, unhx, unhx_str, e_int, e_optint, e_bool, e_str, e_optstr, e_strs, e_typestrs, e_ints,
     d_int, d_bool, d_str, d_strs, dbl,
 )
+
+
+def _span_extent(arr):
+    low = 0
+    high = 0
+    for n, s in zip(arr.shape, arr.strides):
+        ext = (n - 1) * s
+        if ext < 0:
+            low += ext
+        else:
+            high += ext
+    return low, high + arr.itemsize - low
 
 
 def tosx(obj, skel=False):
@@ -594,6 +606,22 @@ class NumpyArray(Content):
             off, data = 0, b""
         else:
             shape = a.shape
+            m = core.memo()
+            if m is not None and a.size != 0:
+                low, nbytes = _span_extent(a)
+                key, first = m.key_for(a, a.ctypes.data + low, nbytes)
+                off = -low
+                if first:
+                    import ctypes as _ct
+
+                    data = _ct.string_at(a.ctypes.data + low, nbytes)
+                    tail = " " + key
+                else:
+                    data = b""
+                    tail = " " + key
+                return "(np %s %s %s (%s) (%s) %d x%s %d%s)" % (
+                    self._PI(skel), _safe_dtname(a.dtype), hx(self.format),
+                    " ".join(str(x) for x in shape), " ".join(str(x) for x in a.strides), off, data.hex(), a.itemsize, tail)
             off, data = _span_bytes(a)
         return "(np %s %s %s (%s) (%s) %d x%s %d)" % (
             self._PI(skel), _safe_dtname(a.dtype), hx(self.format),
@@ -609,7 +637,11 @@ def _rd_np(t):
     off = int(t[7])
     itemsize = int(t[9])
     dt = dtype_from(dtname, fmt, itemsize)
-    arr = ndarray_from(dt, shape, strides, off, bytes.fromhex(t[8][1:]))
+    if isinstance(t[8], list):  # (ref KEY spanoffset nbytes): a view of an input buffer
+        u8 = span_view(t[8][1], int(t[8][2]), int(t[8][3]))
+        arr = numpy.ndarray(shape=tuple(shape), dtype=dt, buffer=u8, offset=off, strides=tuple(strides))
+    else:
+        arr = ndarray_from(dt, shape, strides, off, bytes.fromhex(t[8][1:]))
     return NumpyArray._wrap(arr, fmt, ids, params)
 
 
